@@ -98,7 +98,11 @@ pub fn complete_path(word: &str, for_dir: bool) -> Vec<Completion> {
         _dir_orig.clone()
     };
     let mut path_extended = path.clone();
-    if needs_expand_home(&path_extended) {
+    // `~` is the home directory only where the word was typed with a bare
+    // `~` at its start: not `\~`, not inside quotes, not after a blank
+    // that belongs to the name
+    let written = word.rsplit('|').next().unwrap_or(word).trim_start();
+    if written.starts_with('~') && needs_expand_home(&path_extended) {
         utils::expand_home_string(&mut path_extended)
     }
     utils::expand_env_string(&mut path_extended);
